@@ -252,10 +252,12 @@ def diff_shard(binp, mode, seed, count, extra_args=()):
         out["crash"] = f"model driver failed rc={rc} lines={len(model)}/{n}: {err[-500:]}"
         model = model + ["<no output>"] * (n - len(model))
     for i in range(n):
+        # the case is the (i+1)-th of this shard: running the shard for i+1 cases regenerates and re-executes it (bin/replay does that)
+        rp = " ".join(["bin_seqdiff", mode, str(seed), str(i + 1), *extra_args])
         if model[i] != impls[i]:
-            out["mismatch"].append({"request": reqs[i], "impl": impls[i], "model": model[i], "monitor": mons[i]})
+            out["mismatch"].append({"request": reqs[i], "impl": impls[i], "model": model[i], "monitor": mons[i], "replay_cmd": rp})
         if mons[i] != "ok":
-            out["monfail"].append({"request": reqs[i], "impl": impls[i], "model": model[i], "monitor": mons[i]})
+            out["monfail"].append({"request": reqs[i], "impl": impls[i], "model": model[i], "monitor": mons[i], "replay_cmd": rp})
     out["cases"] = n
     out["reqs"], out["impls"] = reqs, impls
     return out
